@@ -419,6 +419,12 @@ func (c *Ctx) RuleSuffixOps() *Result {
 								return false
 							}
 						}
+						// and nothing else: a line that is neither a directive nor blank is an entry and must reach the rewrite
+						q := &rx.Query{Langs: []*rx.Lang{lang, want1, want2}, Excluded: func(r rune) bool { return r == '\n' }, Accept: func(m []bool) bool { return m[0] && !m[1] && !m[2] }}
+						if r, err := q.Run(); err != nil || r.Found {
+							why = fmt.Sprintf("the skip pattern %s also matches lines that are entries (e.g. %q): their endings are never rewritten", p.Src, r.Witness)
+							return false
+						}
 						*covered = true
 						return true
 					}
